@@ -886,6 +886,35 @@ pub fn gen(seed: u64, tier: &str) -> Vec<String> {
             }
         }
     }
+    // 1g. histories on ONE LayeredFilesystem object: write A, read, write B (other textures), read must
+    //     give B (controls: write, write, read, read); compressed and plain names, localized true/false,
+    //     languages that do / do not rewrite the path
+    {
+        let combos: [(&str, &str, &str); 6] = [("FE14", "EnglishNA", ".lz"), ("FE13", "Japanese", ".lz"), ("FE15", "French", ".lz"), ("FE10", "EnglishNA", ".cms"), ("FE9", "German", ".cmp"), ("FE14", "EnglishEU", "")];
+        let mut c = 0usize;
+        for kind in KINDS.iter() {
+            for (ci, &(game, lang, ext)) in combos.iter().enumerate() {
+                if !thorough && ci >= 4 && (ci + kind.len()) % 2 == 0 {
+                    continue;
+                }
+                for loc in [1, 0] {
+                    if !thorough && loc == 0 && ci % 2 == 1 {
+                        continue;
+                    }
+                    let mk = |rng: &mut Rng| -> (Vec<Tex>, Built) {
+                        let n = rng.range(1, 2) as usize;
+                        let texs: Vec<Tex> = (0..n).map(|_| if *kind == "tpl" { gen_tex_tpl(rng, false) } else { gen_tex_3ds(rng, *kind == "ctpk", false) }).collect();
+                        let b = build(kind, &texs, 0, rng, true);
+                        (texs, b)
+                    };
+                    let (_ta, ba) = mk(&mut rng);
+                    let (tb, bb) = mk(&mut rng);
+                    c += 1;
+                    next(&mut lines, format!("fsseq {} {} {} {} {} {} {} {} {}", kind, game, lang, if ext.is_empty() { "-" } else { ext }, loc, c % 3 / 2, hex(&ba.file), hex(&bb.file), tex_fields(&tb, &bb)));
+                }
+            }
+        }
+    }
     // 2. BCH compatibility byte on both sides of the threshold (N2), one texture each
     for &compat in COMPATS.iter() {
         let texs = vec![gen_tex_3ds(&mut rng, false, false)];
@@ -1157,6 +1186,11 @@ pub fn run_line(_st: &mut super::State, line: &str) -> String {
             let file = unhex(f[4]);
             format!("{} {} {}", id, PROFILE, fs_outcome(kind, localized, "FE13", "", &file))
         }
+        "fsseq" => {
+            // <kind> <game> <lang> <ext> <loc> <mode> <fileA> <fileB> …: one LayeredFilesystem object;
+            // mode 0: write A, read, write B, read; mode 1: write A, write B, read, read
+            format!("{} {} {}", id, PROFILE, fs_sequence(f[2], f[3], f[4], f[5], f[6] == "1", f[7], &unhex(f[8]), &unhex(f[9])))
+        }
         "fsreadz" => {
             // <kind> <loc> <game> <ext> <stored-hex> <file-hex> …: the stored (compressed) bytes are put on disk as they are
             let stored = unhex(f[6]);
@@ -1168,6 +1202,80 @@ pub fn run_line(_st: &mut super::State, line: &str) -> String {
 
 /// Writes `file` into a fresh layer directory under `work/` and reads it back through the
 /// `LayeredFilesystem` texture entry points.
+fn fs_read_text(fs: &LayeredFilesystem, kind: &str, path: &str, localized: bool) -> String {
+    let class = |e: &LayeredFilesystemError| match e {
+        LayeredFilesystemError::TextureParseError(e) => parse_err_class(e),
+        LayeredFilesystemError::CompressionError(_) => "Invalid",
+        _ => "Other",
+    };
+    if kind == "tpl" {
+        match no_panic(|| fs.read_tpl_textures(path, localized)) {
+            Err(_) => "panic".to_string(),
+            Ok(Err(e)) => format!("err {}", class(&e)),
+            Ok(Ok(ts)) => {
+                let mut s = format!("ok {}", ts.len());
+                for (i, t) in ts.iter().enumerate() {
+                    s.push_str(&format!(" {} {} {} {} {}", i, hexs(&t.filename), t.width, t.height, hex(&t.pixel_data)));
+                }
+                s
+            }
+        }
+    } else {
+        let r = no_panic(|| match kind {
+            "ctpk" => fs.read_ctpk_textures(path, localized),
+            "bch" => fs.read_bch_textures(path, localized),
+            _ => fs.read_cgfx_textures(path, localized),
+        });
+        match r {
+            Err(_) => "panic".to_string(),
+            Ok(Err(e)) => format!("err {}", class(&e)),
+            Ok(Ok(map)) => {
+                let mut items: Vec<(&String, &Texture)> = map.iter().collect();
+                items.sort_by(|a, b| a.0.as_bytes().cmp(b.0.as_bytes()));
+                let mut s = format!("ok {}", items.len());
+                for (k, t) in items {
+                    s.push_str(&format!(" {} {} {} {} {}", hexs(k), hexs(&t.filename), t.width, t.height, hex(&t.pixel_data)));
+                }
+                s
+            }
+        }
+    }
+}
+
+/// A history of writes and reads on ONE `LayeredFilesystem` object (and a clone of it).
+fn fs_sequence(kind: &str, game: &str, lang: &str, ext: &str, localized: bool, mode: &str, a: &[u8], b: &[u8]) -> String {
+    let dir = std::path::PathBuf::from(format!("work/texc-fs-{}", std::process::id()));
+    let _ = std::fs::remove_dir_all(&dir);
+    if std::fs::create_dir_all(&dir).is_err() {
+        return "fs-setup-failed".to_string();
+    }
+    let out = (|| {
+        let fs = match LayeredFilesystem::new(vec![dir.to_string_lossy().to_string()], super::loc::language(lang), game_of(game)) {
+            Ok(fs) => fs,
+            Err(_) => return "fs-setup-failed".to_string(),
+        };
+        let path_string = format!("tex/a.bin{}", if ext == "-" { "" } else { ext });
+        let path = path_string.as_str();
+        let first = |t: &str| -> String { t.split(' ').take(2).collect::<Vec<_>>().join(".") };
+        if fs.write(path, a, localized).is_err() {
+            return "fs-setup-failed".to_string();
+        }
+        let mut r1 = String::from("-");
+        if mode == "0" {
+            r1 = first(&fs_read_text(&fs, kind, path, localized));
+        }
+        if fs.write(path, b, localized).is_err() {
+            return "fs-setup-failed".to_string();
+        }
+        if mode == "1" {
+            r1 = first(&fs_read_text(&fs.clone(), kind, path, localized));
+        }
+        format!("{} {}", r1, fs_read_text(&fs, kind, path, localized))
+    })();
+    let _ = std::fs::remove_dir_all(&dir);
+    out
+}
+
 fn game_of(name: &str) -> Game {
     match name {
         "FE9" => Game::FE9,
